@@ -38,17 +38,19 @@ type kstate struct {
 }
 
 type judgement struct {
-	Findings    []finding
-	Admitted    int
-	Rejected    int
-	Debatable   int // admissions in the zone the documentation leaves open
-	Refunds     int
-	Ambiguous   int // keys dropped because two disagreements explain one observation equally
-	Judged      int
-	HeaderDiffs int    // X-RateLimit-* values that differ from the specification (counted, not judged)
-	Outcome     string // one letter per request, for distinctness
-	GapSeen     bool
-	RolledSeen  bool
+	Findings               []finding
+	Admitted               int
+	Rejected               int
+	Debatable              int // admissions in the zone the documentation leaves open
+	Refunds                int
+	Ambiguous              int // keys dropped because two disagreements explain one observation equally
+	Judged                 int
+	LateRefunds            int    // take-backs that found the window of their hit gone
+	LateRefundsOnLiveState int    // ... while the key's current/previous window holds other hits
+	HeaderDiffs            int    // X-RateLimit-* values that differ from the specification (counted, not judged)
+	Outcome                string // one letter per request, for distinctness
+	GapSeen                bool
+	RolledSeen             bool
 }
 
 func (j *judgement) sigs() map[string]bool {
@@ -124,6 +126,10 @@ func judge(cfg tcfg, steps []tstep, obs []tobs) *judgement {
 			j.Refunds++
 			if !ks.w.refund(a, o.TEnd, xs[i]) {
 				ks.lastLate, ks.hadLate = true, true
+				j.LateRefunds++
+				if st0 := ks.w.s[0]; st0.exp != 0 && o.TSEnd < st0.exp && (st0.prev > 0 || st0.curr > 0) {
+					j.LateRefundsOnLiveState++ // other requests are counted in the windows now in force
+				}
 			}
 			ks.hadRefund = true
 			continue
